@@ -3,6 +3,7 @@ package sb
 import (
 	"context"
 	"fmt"
+	"sort"
 
 	"github.com/herohde/morlock/pkg/board"
 	"github.com/herohde/morlock/pkg/eval"
@@ -285,6 +286,36 @@ func SearchSessionC11(t *tape.Tape) *core.RunResult {
 		}
 	}
 done:
+	// aliasing probe: a hash that differs from a stored one only in a bit above the slot index must miss
+	// (unless it was itself stored): "every hit returns the tuple of a store for that same hash"
+	if len(res.Violations) == 0 && res.Discarded == "" {
+		keys := make([]board.ZobristHash, 0, len(rec.stored))
+		for h := range rec.stored {
+			keys = append(keys, h)
+		}
+		sort.Slice(keys, func(i, j int) bool { return keys[i] < keys[j] }) // map order must not decide anything
+		if len(keys) > 64 {
+			keys = keys[:64]
+		}
+		for _, h := range keys {
+			for _, bit := range []uint{20, 31, 32, 33, 47, 63} {
+				alias := h ^ board.ZobristHash(uint64(1)<<bit)
+				if uint64(alias)&(slots-1) != uint64(h)&(slots-1) {
+					continue
+				}
+				if _, known := rec.stored[alias]; known {
+					continue
+				}
+				if _, d, sc, _, ok := inner.Read(alias); ok {
+					res.Violate("C11", "tt-hit-for-another-position", judged, "Read(%x) hits with depth %d score %v although nothing was ever stored for that hash; %x (differing in bit %d only) was", uint64(alias), d, sc, uint64(h), bit)
+					break
+				}
+			}
+			if len(res.Violations) > 0 {
+				break
+			}
+		}
+	}
 	if rec.hits > 0 {
 		res.Probes["tt-hit"] += rec.hits
 	}
